@@ -40,6 +40,7 @@ type c12Spec struct {
 	Sync      bool
 	Dev       int
 	Big       bool // too large for preemption bounding in the quick tier
+	CancelOne bool // caller 0's own context is cancelled by another task at an arbitrary moment
 	Expiry    bool // write faults include "the write deadline has passed"; caller 0 carries a context deadline
 }
 
@@ -156,6 +157,13 @@ func c12Scenario(sp c12Spec) *explore.Scenario {
 				st.calls = append(st.calls, res)
 				vsched.Go(fmt.Sprintf("caller%d", i), func() {
 					ctx := context.Background()
+					if spec.CancelOne && i == 0 {
+						// this call's own context ends at an arbitrary moment: the
+						// call returns, the others are not disturbed
+						var cancel context.CancelFunc
+						ctx, cancel = vsched.WithCancel(ctx)
+						vsched.Go("cancel-call0", func() { cancel() })
+					}
 					if spec.Expiry && i == 0 {
 						// a per-call deadline (it never fires by itself: time
 						// does not pass inside an execution; its expiry is the
@@ -259,6 +267,15 @@ func c12Specs() []c12Spec {
 		{Name: "close-pending", Pending: 2, Late: true, Script: []srvAct{rd(), {Op: "close"}},
 			Expect: map[int]string{0: "err", 10: "err", 90: "err"}},
 		{Name: "close-idle", Pending: 1, Script: []srvAct{{Op: "close"}}, Expect: map[int]string{0: "err"}},
+		// the peer goes away while several requests are still unwritten (a
+		// connection without buffering: one write blocked, the rest queued)
+		{Name: "close-pending-sync", Pending: 3, Late: true, Sync: true, Big: true, Script: []srvAct{rd(), {Op: "close"}},
+			Expect: map[int]string{90: "err"}},
+		{Name: "close-unwritten-sync", Pending: 3, Sync: true, Big: true, Script: []srvAct{{Op: "close"}},
+			Expect: map[int]string{0: "err", 10: "err", 20: "err"}},
+		// one call's own context ends at any moment; the peer answers everything
+		{Name: "call-cancel", Pending: 2, Late: true, CancelOne: true, Big: true, Expect: map[int]string{10: "own", 90: "own"}},
+		{Name: "call-cancel-sync", Pending: 3, Late: true, CancelOne: true, Sync: true, Big: true, Expect: map[int]string{10: "own", 20: "own", 90: "own"}},
 		{Name: "read-faults", Pending: 2, Late: true, FaultR: true, Dev: 1, Big: true},
 		{Name: "read-faults-1", Pending: 1, Late: true, FaultR: true, Dev: 1},
 		{Name: "write-faults", Pending: 2, Late: true, FaultW: true, Dev: 1},
@@ -407,7 +424,7 @@ func c12WrongTypeAll() *explore.Scenario {
 
 func c12(c *core.Ctx) {
 	c.Budget(100*time.Second, 14*time.Minute)
-	c.SetRule("scenarios: a real CSession with 1-2 pending calls and one call issued afterwards against a scripted peer that sends a reply with an unknown tag, the same reply twice, a reply of the wrong type, an undecodable / short / impossible-length / oversize frame, a truncated frame then close, or closes; plus client-side read or write errors placed at every Read/Write (1 deviation) and session-context cancellation at every point; all interleavings up to the bound; after its misbehaviour the peer keeps draining and answering, then closes. outcome = per-call classification (own / err / stuck)")
+	c.SetRule("scenarios: a real CSession with 1-2 pending calls and one call issued afterwards against a scripted peer that sends a reply with an unknown tag, the same reply twice, a reply of the wrong type, an undecodable / short / impossible-length / oversize frame, a truncated frame then close, or closes (also while several requests are still unwritten on a connection without buffering); one call's own context cancelled at every point while the peer answers everything (the other calls must get their own results); plus client-side read or write errors placed at every Read/Write (1 deviation) and session-context cancellation at every point; all interleavings up to the bound; after its misbehaviour the peer keeps draining and answering, then closes. outcome = per-call classification (own / err / stuck)")
 	c.Assume("'bounded time' is decided as quiescence: a call still parked when nothing is enabled, while the peer keeps draining or has closed, is a hang; I/O deadlines never fire inside an execution")
 	var plans []Plan
 	for _, sp := range c12Specs() {
